@@ -276,7 +276,7 @@ func init() {
 	}
 	ck.Run = func(c *run.Ctx) *run.ShardResult {
 		sr := run.NewShardResult()
-		n := 120
+		n := 200
 		if c.Thorough() {
 			n = 2400
 		}
